@@ -114,6 +114,23 @@ CHECKS["C05"] = ("chain", "exploration",
     "Observed at block boundaries only. The supplementary sanity checker is registered on the same replica and a failure of it is reported under its own signature.",
     "DESIGN.md 4/C05")
 
+CHECKS["C10"] = ("chain", "exploration",
+    "hostile block-history generation with panic / REJECT monitor on the real multiplexer (rapid)",
+    "Generated hostile histories (extreme amounts, garbage / truncated / oversized transactions, user-signed system methods, evidence against current, former and unknown validators incl. duplicates, minimum vote "
+    "participation, total slashing, depleted pools, coinciding epoch events) in two modes per block: an HONEST proposer whose mempool is what passed CheckTx must always obtain a proposal that every replica accepts; "
+    "a BYZANTINE proposer includes everything and may inject transactions behind its own PrepareProposal. Accepted blocks must execute without panic on the process and the replay path with identical AppHash; "
+    "a rejected Byzantine block must also be unexecutable on the replay path; validator updates must satisfy the engine's contract.",
+    "The documented precondition (a validator can still be elected) is kept by an anchor validator entity and recognised by its error text otherwise (counted discard). No runtime transactions yet.",
+    "DESIGN.md 4/C10")
+CHECKS["C08"] = ("chain", "exploration",
+    "exact working-state diff of single probe transactions against an independent authentication predicate (rapid)",
+    "At generated points of generated histories, candidate transactions of every buildable method (valid or with one aspect invalidated, incl. every gas exhaustion point) are executed alone in an uncommitted block "
+    "and the complete working state is diffed against the same block without them. A failing transaction that an independent predicate (stdlib ed25519, nonce, balance, reserved/system/oversized) rejects at "
+    "authentication must leave an EMPTY diff; one that passes authentication may only change the signer's nonce (+1) and balance (-fee) and the fee sinks, summing exactly to the fee. CheckTx / EstimateGas of all "
+    "candidates leave the committed state in the node database byte-identical and the prober's AppHash equals a clean twin's at every height.",
+    "Probe blocks contain exactly one transaction; signers whose account the empty block itself changes are skipped (counted). Events are not consensus state.",
+    "DESIGN.md 4/C08")
+
 NOT_APPLICABLE = {
 }
 
